@@ -39,7 +39,7 @@ func (c *validatorListConstructor) buildList(node schema.Node) {
 		c.appendTypeValidators(names)
 
 		if constr := node.Constraint(constraint.NullableConstraintType); constr != nil {
-			c.list = append(c.list, newLiteralValidator(node, c.parent))
+			c.list = append(c.list, newNullValidator(node, c.parent))
 		}
 	} else {
 		c.appendNodeValidators(node)
@@ -84,7 +84,7 @@ func (c *validatorListConstructor) appendNodeValidators(node schema.Node) {
 	// A nullable object or array accepts the null literal as well.
 	if t := node.Type(); t == json.TypeArray || t == json.TypeObject {
 		if _, isAny := v.(*anyNestedStructure); !isAny && node.Constraint(constraint.NullableConstraintType) != nil {
-			c.list = append(c.list, &literalValidator{node_: node, parent_: c.parent})
+			c.list = append(c.list, newNullValidator(node, c.parent))
 		}
 	}
 }
